@@ -134,7 +134,11 @@ class BasicRender(object):
         if resp_mime == 'application/json':
             return self.json_render(context)
         elif resp_mime == 'text/html':
-            return self.tabular_render(context, _route)
+            try:
+                return self.tabular_render(context, _route)
+            except Exception:
+                # not every serializable value has a tabular shape
+                return self.json_render(context)
         return Response(str(context), mimetype="text/plain")
 
     @property
